@@ -29,7 +29,13 @@ Fixpoint all2 {A B} (f : A -> B -> bool) (l : list A) (l' : list B) : bool :=
   match l, l' with [] , [] => true | x :: t, y :: t' => f x y && all2 f t t' | _, _ => false end.
 (* one captured scoring pipeline: phase (0 predict, 1 compare_two_records, 2 realtime, 3 find_matches,
    4 missing edges), its t_case, the outer filter over the predict stage, the anti-join if present *)
-Definition s_entry := (nat * t_case * option (cmpop * Q) * option (option (jbx * jbx)))%type.
+(* ... and the binding of every comparison-vector input: (name of <x> in the alias <x>_l/<x>_r, alias side, source side,
+   source column) with sides false = l, true = r and names as per-case ids *)
+Definition binding := (nat * bool * bool * nat)%type.
+Definition binding_eqb (a b : binding) : bool :=
+  match a, b with (n, s, t, c), (n', s', t', c') => Nat.eqb n n' && Bool.eqb s s' && Bool.eqb t t' && Nat.eqb c c' end.
+Definition binding_ok (b : binding) : bool := match b with (n, s, t, c) => Nat.eqb n c && Bool.eqb s t end.
+Definition s_entry := (nat * t_case * option (cmpop * Q) * option (option (jbx * jbx)) * list binding)%type.
 (* the SQL-shaped model of one entry point (Model/EntryPoints.v pipeline) built from its extracted skeletons *)
 Definition pipeline_of (a : t_case) : pipeline :=
   match a with (_, _, _, g, bs, ts, f) =>
@@ -51,25 +57,36 @@ Definition where_ok (c : t_case) : bool :=
    find_matches, strict >, threshold as passed; 3 anti-join only in missing edges and canonical; 4 all five phases seen *)
 Definition s_report (c : s_case) : list bool :=
   match c with (es, fmthr, supplied, exact) =>
-    let tc := fun e : s_entry => snd (fst (fst e)) in
-    let ph := fun e : s_entry => fst (fst (fst e)) in
+    let tc := fun e : s_entry => snd (fst (fst (fst e))) in
+    let ph := fun e : s_entry => fst (fst (fst (fst e))) in
+    let ow := fun e : s_entry => snd (fst (fst e)) in
+    let aj := fun e : s_entry => snd (fst e) in
+    let bd := fun e : s_entry => snd e in
     [ forallb (fun e => if exact then t_ok (tc e) else where_ok (tc e)) es;
       match es with [] => false | e0 :: _ => forallb (fun e => same_scoring (tc e0) (tc e)) es end;
-      forallb (fun e => match snd (fst e) with
+      forallb (fun e => match ow e with
                         | None => negb (Nat.eqb (ph e) 3)
                         | Some (op, t) => Nat.eqb (ph e) 3 && cmpop_eqb op OpGt && existsb (Qeq_bool t) fmthr
                         end) es;
-      forallb (fun e => match snd e with
+      forallb (fun e => match aj e with
                         | None => negb (Nat.eqb (ph e) 4)
                         | Some j => Nat.eqb (ph e) 4 && anti_join_ok j supplied
                         end) es;
-      forallb (fun k => existsb (fun e => Nat.eqb (ph e) k) es) (seq 0 5) ]
+      forallb (fun k => existsb (fun e => Nat.eqb (ph e) k) es) (seq 0 5);
+      match es with [] => false | e0 :: _ =>
+        (* every input is bound to its own column of its own side, and every input predict() binds is bound (identically,
+           given binding_ok) by each entry point; an entry point may carry further pass-through columns, e.g. those of
+           find_matches' own blocking rules *)
+        forallb (fun e => forallb binding_ok (bd e) &&
+                          forallb (fun b => existsb (binding_eqb b) (bd e)) (bd e0)) es end ]
   end.
 Definition s_ok (c : s_case) : bool := forallb (fun b => b) (s_report c).
 """
 S_PARTS = ["an entry point's scoring SQL differs from the model's generators / its threshold clause is not >= threshold", "an entry point's scoring SQL differs from predict()'s",
            "outer filter (find_matches must use match_weight > threshold; no other entry point filters)",
-           "anti-join of missing-edge scoring (LEFT JOIN on both keys, WHERE both NULL)", "scoring stage not found for some entry point"]
+           "anti-join of missing-edge scoring (LEFT JOIN on both keys, WHERE both NULL)", "scoring stage not found for some entry point",
+           "binding of the comparison-vector inputs (<x>_l / <x>_r / tf_<x>_l / tf_<x>_r must come from column <x> / tf_<x> of that side, "
+           "the same in every entry point)"]
 
 
 def gen_case(rng, backend, exact=False):
@@ -211,6 +228,7 @@ def sql_stage(ctx: Ctx, live, tag="C10"):
         dialect = so._sqlglot_dialect
         spec = case["spec"]
         entries, seen = [], set()
+        names = {}
         try:
             texts = set()
             for ph, sql in res["sql_log"]:
@@ -226,7 +244,13 @@ def sql_stage(ctx: Ctx, live, tag="C10"):
                 thrq = Fr(case["me_thr"]) if (ph == "missing_edges" and case["me_thr"] is not None) else None
                 aj = "(@None (option (jbx * jbx)))" if tr["anti_join"] is None else f"(Some {tr['anti_join']})"
                 ow = "(@None (cmpop * Q))" if tr["outer_where"] == "None" else tr["outer_where"]
-                txt = f"({PHASES.index(ph)}%nat, {t_term(spec, tr, thrq)}, {ow}, {aj})"
+                bts = []
+                for alias, side, col in tr["bindings"]:
+                    if alias[-2:] not in ("_l", "_r"):
+                        raise TS.Untranslatable(f"comparison-vector input alias {alias}")
+                    bts.append(f"({names.setdefault(alias[:-2], len(names))}%nat, {coq_bool(alias[-1] == 'r')}, "
+                               f"{coq_bool(side == 'r')}, {names.setdefault(col, len(names))}%nat)")
+                txt = f"({PHASES.index(ph)}%nat, {t_term(spec, tr, thrq)}, {ow}, {aj}, {coq_list(bts, 'binding')})"
                 if txt not in seen:
                     seen.add(txt)
                     entries.append((ph, txt))
